@@ -1,6 +1,7 @@
 (* C10 — the node id is keccak256 of the record's public key (uncompressed form) and nothing else. *)
 Require Import Enr.Bytes Enr.Consts Enr.Rlp Enr.SortedMap Enr.Keccak Enr.Record Enr.Update.
-Require Import EnrProofs.Thm_Decode EnrProofs.Thm_Update.
+Require Import Enr.Spec.
+Require Import EnrProofs.Thm_Decode EnrProofs.Thm_Update EnrProofs.Thm_Valid.
 Open Scope N_scope.
 
 Theorem decode_nid : forall (c : crypto) kt b r rest,
@@ -39,3 +40,22 @@ Proof.
   rewrite (Thm_Update.step_nid c kt _ _ _ _ _ _ H1 N1 S1), (Thm_Update.step_nid c kt _ _ _ _ _ _ H2 N2 S2). reflexivity.
 Qed.
 Print Assumptions nid_function_of_key.
+
+(* for every record handed out: the id equals the one derived from the public-key accessor's value *)
+Theorem valid_nid_via_accessor : forall (c : crypto) kt r, Valid c kt r ->
+  exists pk, public_key c kt r = Ok pk /\ nid r = keccak256 (pk_unc pk).
+Proof.
+  intros c kt r Hv. destruct (Thm_Valid.valid_observables c kt r Hv) as (pk & Hp & _ & _ & Hn & _). exists pk. auto.
+Qed.
+Print Assumptions valid_nid_via_accessor.
+
+(* two valid records with the same effective key have the same id, whatever their content *)
+Theorem valid_same_key_same_nid : forall (c : crypto) kt r1 r2 pk,
+  Valid c kt r1 -> Valid c kt r2 -> public_key c kt r1 = Ok pk -> public_key c kt r2 = Ok pk -> nid r1 = nid r2.
+Proof.
+  intros c kt r1 r2 pk V1 V2 P1 P2.
+  destruct (Thm_Valid.valid_observables c kt r1 V1) as (p1 & Q1 & _ & _ & N1 & _).
+  destruct (Thm_Valid.valid_observables c kt r2 V2) as (p2 & Q2 & _ & _ & N2 & _).
+  rewrite P1 in Q1. rewrite P2 in Q2. inversion Q1; inversion Q2; subst. rewrite N1, N2. reflexivity.
+Qed.
+Print Assumptions valid_same_key_same_nid.
